@@ -9,6 +9,10 @@ import PermutaModel.Lemmas.C11Class
 import PermutaModel.Lemmas.C11Dist
 import PermutaModel.Lemmas.C11Prime
 import PermutaModel.Lemmas.PermBasic
+import PermutaModel.Lemmas.C11Pats
+import PermutaModel.Lemmas.C11Joint
+import PermutaModel.Lemmas.C09Gen
+import PermutaModel.Props.C01
 
 /-!
 # C11 — every permutation statistic returns the value its definition and name promise
@@ -1033,5 +1037,173 @@ theorem table_distribution_sums (e : Entry) (he : e ∈ Generated.statTable) (hp
 
 example : (distributionForLength ("Number of inversions", "count_inversions") 4 (some [[0, 1, 2]])).sum = 14 := by
   decide +kernel
+
+/-! ## pattern counts: `threepats` / `fourpats` -/
+
+/-- among the standardised `k`-subsequences of a permutation `p` (`Perm.to_standard` of every
+    `itertools.combinations(self, k)`), the pattern `q` of length `k` appears exactly
+    `Model.countOcc q p` times: the number of occurrences of `q` in `p` (`C01`: the index `k`-subsets whose
+    entries are order-isomorphic to `q`, each listed once) -/
+theorem kpats_count (p q : NSeq) (hp : IsPerm p) (hq : IsPerm q) :
+    ((Spec.subLen q.length p).map Model.standardize).count q = Model.countOcc q p := by
+  rw [C11L.count_standardize_subLen hp.1 hq, Model.countOcc, C01.occurrencesIn_eq_spec q p hq hp]
+
+/-- **`threepats` / `fourpats` (`kpats 3`, `kpats 4`)**: the `Counter` holds exactly the pairs
+    (pattern `q` of length `k`, number of occurrences of `q` in `p`) with a positive count – a pattern that
+    does not occur is absent (and reads as `0` in a `Counter`) -/
+theorem kpats_spec (k : Nat) (p : NSeq) (hp : IsPerm p) (q : NSeq) (c : Nat) :
+    (q, c) ∈ kpats k p ↔ IsPerm q ∧ q.length = k ∧ c = Model.countOcc q p ∧ 0 < c := by
+  unfold kpats
+  rw [List.mem_filterMap]
+  constructor
+  · rintro ⟨q', hq', h⟩
+    obtain ⟨hq1, hq2⟩ := (C09.mem_permsLex k q').mp hq'
+    split at h
+    · rename_i hpos
+      simp only [Option.some.injEq, Prod.mk.injEq] at h
+      obtain ⟨rfl, rfl⟩ := h
+      subst hq2
+      exact ⟨hq1, rfl, kpats_count p q' hp hq1, hpos⟩
+    · cases h
+  · rintro ⟨hq, rfl, rfl, hpos⟩
+    refine ⟨q, (C09.mem_permsLex _ q).mpr ⟨hq, rfl⟩, ?_⟩
+    rw [kpats_count p q hp hq, if_pos hpos]
+
+/-- the keys are listed once each, in the `(length, lexicographic)` order of `Perm.of_length(k)`
+    (the driver prints the `Counter` sorted by key): they are the patterns with a positive count -/
+theorem kpats_keys (k : Nat) (p : NSeq) :
+    (kpats k p).map (·.1) =
+      (Model.permsLex k).filter fun q => decide (((Spec.subLen k p).map Model.standardize).count q > 0) := by
+  unfold kpats
+  generalize Model.permsLex k = L
+  induction L with
+  | nil => rfl
+  | cons q t ih =>
+    simp only [List.filterMap_cons, List.filter_cons]
+    by_cases h : ((Spec.subLen k p).map Model.standardize).count q > 0
+    · simp only [h, if_true, decide_true, List.map_cons, ih]
+    · simp only [h, if_false, decide_false, ih]; rfl
+
+/-- in the property's wording: the count reported for `q` is the number of index tuples `c` with
+    `IsOcc q p c` (strictly increasing positions of `p` whose entries are order-isomorphic to `q`) -/
+theorem kpats_counts_occurrences (p q : NSeq) (hp : IsPerm p) (hq : IsPerm q) :
+    ∃ occ : List (List Nat), occ.Nodup ∧ (∀ c, c ∈ occ ↔ IsOcc q p c) ∧ Model.countOcc q p = occ.length :=
+  ⟨Model.occurrencesIn q p, C01.occurrencesIn_nodup q p hq hp, C01.mem_occurrencesIn_iff q p hq hp, rfl⟩
+
+/-- the docstring examples of `threepats` and `fourpats` -/
+example : kpats 3 [2, 1, 0, 3] = [([1, 0, 2], 3), ([2, 1, 0], 1)] ∧
+    ([0, 2, 3, 1], 2) ∈ kpats 4 [1, 0, 3, 5, 2, 4] ∧ IsPerm [1, 0, 3, 5, 2, 4] := by decide +kernel
+
+/-! ## `min_gapsize` -/
+
+/-- `min()` of an empty generator: fewer than two entries give `ValueError` -/
+theorem minGapsize_error (p : NSeq) (h : p.length < 2) : minGapsize p = .error .valueError := by
+  unfold minGapsize
+  rw [(C11L.pairsLt_eq_nil_iff _).mpr h]
+  rfl
+
+/-- **`min_gapsize`**: for at least two entries the result is the minimum, over all pairs of positions
+    `i < j`, of the taxicab distance `|i - j| + |p[i] - p[j]|`: it is attained and it is a lower bound -/
+theorem minGapsize_spec (p : NSeq) (h : 2 ≤ p.length) :
+    ∃ g, minGapsize p = .ok g ∧
+      (∃ i j, i < j ∧ j < p.length ∧ g = Spec.Stat.taxicab p i j) ∧
+      ∀ i j, i < j → j < p.length → g ≤ Spec.Stat.taxicab p i j := by
+  have hf : ∀ x : Nat × Nat, absDiff x.1 x.2 + absDiff (p.getD x.1 0) (p.getD x.2 0) =
+      Spec.Stat.taxicab p x.1 x.2 := by
+    intro x; simp only [Spec.Stat.taxicab, C11L.absDiff_eq_natAbs]
+  have hmem : ∀ r, r ∈ (pairsLt p.length).map (fun x => absDiff x.1 x.2 + absDiff (p.getD x.1 0) (p.getD x.2 0)) ↔
+      ∃ i j, i < j ∧ j < p.length ∧ r = Spec.Stat.taxicab p i j := by
+    intro r
+    simp only [List.mem_map, hf]
+    constructor
+    · rintro ⟨x, hx, rfl⟩
+      exact ⟨x.1, x.2, ((C11L.mem_pairsLt _ x).mp hx).1, ((C11L.mem_pairsLt _ x).mp hx).2, rfl⟩
+    · rintro ⟨i, j, hij, hj, rfl⟩
+      exact ⟨(i, j), (C11L.mem_pairsLt _ (i, j)).mpr ⟨hij, hj⟩, rfl⟩
+  unfold minGapsize
+  generalize hL : (pairsLt p.length).map
+    (fun x => absDiff x.1 x.2 + absDiff (p.getD x.1 0) (p.getD x.2 0)) = L at hmem
+  cases L with
+  | nil =>
+    exfalso
+    have : pairsLt p.length = [] := by simpa using hL
+    have := (C11L.pairsLt_eq_nil_iff _).mp this
+    omega
+  | cons g t =>
+    obtain ⟨h1, h2⟩ := C11L.foldl_min_spec t g
+    refine ⟨t.foldl min g, rfl, (hmem _).mp h1, ?_⟩
+    intro i j hij hj
+    exact h2 _ ((hmem _).mpr ⟨i, j, hij, hj, rfl⟩)
+
+/-- the docstring example, and the two error cases -/
+example : minGapsize [2, 0, 3, 1] = .ok 3 ∧ minGapsize [0] = .error .valueError ∧
+    minGapsize [] = .error .valueError := by decide
+
+/-! ## joint equidistribution -/
+
+/-- `Counter(a) == Counter(b)`: the same tuples with the same multiplicities -/
+theorem counterEq_iff (a b : List (List Int)) : counterEq a b = true ↔ a.Perm b := C11L.counterEq_iff_perm a b
+
+/-- `itertools.combinations(_STATISTICS, dim)`: the sub-tuples of the table of length `dim` (table order) -/
+theorem mem_combosOf_table (table : List Entry) (dim : Nat) (stats : List Entry) :
+    stats ∈ combosOf dim table ↔ stats.Sublist table ∧ stats.length = dim := C11L.mem_combosOf dim table stats
+
+/-- **`jointly_equally_distributed`** reports exactly the name tuples of the `dim`-combinations `stats` of
+    the table for which, for every length `i ≤ n`, the tuples `(stat(p))_{stat ∈ stats}` taken over
+    `Av(b1)` of length `i` and over `Av(b2)` of length `i` form the same multiset -/
+theorem mem_jointlyEquallyDistributed (table : List Entry) (b1 b2 : List NSeq) (n dim : Nat) (names : List String) :
+    names ∈ jointlyEquallyDistributed table b1 b2 n dim ↔
+      ∃ stats : List Entry, stats.Sublist table ∧ stats.length = dim ∧ names = stats.map (·.1) ∧
+        ∀ i, i ≤ n → (jointValues stats b1 i).Perm (jointValues stats b2 i) := by
+  simp only [jointlyEquallyDistributed, List.mem_map, List.mem_filter, List.all_eq_true, List.mem_range,
+    counterEq_iff, C11L.mem_combosOf]
+  constructor
+  · rintro ⟨stats, ⟨⟨hs, hl⟩, hp⟩, rfl⟩
+    exact ⟨stats, hs, hl, rfl, fun i hi => hp i (by omega)⟩
+  · rintro ⟨stats, hs, hl, rfl, hp⟩
+    exact ⟨stats, ⟨⟨hs, hl⟩, fun i hi => hp i (by omega)⟩, rfl⟩
+
+/-- the multiset compared: one value tuple per member of the class (`mem_classOfLength`: the permutations
+    of length `i` avoiding the basis) -/
+theorem jointValues_eq (stats : List Entry) (b : List NSeq) (i : Nat) :
+    jointValues stats b i = (classOfLength (some b) i).map fun p => stats.map fun e => runEntry e p := rfl
+
+/-- **`jointly_transformed_equally_distributed`** reports exactly the pairs of name tuples of two
+    `dim`-arrangements `s₁`, `s₂` of the table, `s₁` enumerated before `s₂` by `itertools.permutations`
+    (`combinations(…, 2)`), for which for every length `i ≤ n` the tuples of `s₁` over `Av(b1)` and the
+    tuples of `s₂` over `Av(b2)` form the same multiset -/
+theorem mem_jointlyTransformedEquallyDistributed (table : List Entry) (b1 b2 : List NSeq) (n dim : Nat)
+    (r : List String × List String) :
+    r ∈ jointlyTransformedEquallyDistributed table b1 b2 n dim ↔
+      ∃ s₁ s₂ : List Entry, [s₁, s₂].Sublist (arrangementsOf dim table) ∧
+        r = (s₁.map (·.1), s₂.map (·.1)) ∧
+        ∀ i, i ≤ n → (jointValues s₁ b1 i).Perm (jointValues s₂ b2 i) := by
+  simp only [jointlyTransformedEquallyDistributed, List.mem_map, List.mem_filter, List.all_eq_true,
+    List.mem_range, counterEq_iff, C11L.mem_combosOf_two]
+  constructor
+  · rintro ⟨pr, ⟨⟨s₁, s₂, rfl, hs⟩, hp⟩, rfl⟩
+    exact ⟨s₁, s₂, hs, rfl, fun i hi => hp i (by omega)⟩
+  · rintro ⟨s₁, s₂, hs, rfl, hp⟩
+    exact ⟨[s₁, s₂], ⟨⟨s₁, s₂, rfl, hs⟩, fun i hi => hp i (by omega)⟩, rfl⟩
+
+/-- `itertools.permutations(_STATISTICS, dim)` over a table without repeated entries: exactly the
+    repetition-free `dim`-tuples of table entries -/
+theorem mem_arrangementsOf_table (table : List Entry) (ht : table.Nodup) (dim : Nat) (s : List Entry) :
+    s ∈ arrangementsOf dim table ↔ s.Nodup ∧ s.length = dim ∧ ∀ e ∈ s, e ∈ table :=
+  C11L.mem_arrangementsOf dim table ht s
+
+/-- the table of the source has no repeated entry -/
+theorem statTable_nodup : Generated.statTable.Nodup := by decide
+
+/-- non-vacuity: on a two-entry table, `Av(01)` vs `Av(10)` up to length 3 – inversions and non-inversions
+    are not jointly equidistributed, but the pair (inv, non-inv) over `Av(01)` is equidistributed with the
+    pair (non-inv, inv) over `Av(10)` -/
+example :
+    jointlyEquallyDistributed [("inv", "count_inversions"), ("ninv", "count_non_inversions")] [[0, 1]] [[1, 0]] 3 2 = [] ∧
+    jointlyEquallyDistributed [("des", "count_descents"), ("asc", "count_ascents")] [[0, 1, 2]] [[0, 1, 2]] 3 2
+      = [["des", "asc"]] ∧
+    (["inv", "ninv"], ["ninv", "inv"]) ∈
+      jointlyTransformedEquallyDistributed [("inv", "count_inversions"), ("ninv", "count_non_inversions")]
+        [[0, 1]] [[1, 0]] 3 2 := by decide +kernel
 
 end C11
